@@ -148,6 +148,7 @@ func (x ids) name(s *swap.SwapId) string {
 }
 
 const longLen = 70000 // >= 64 KiB
+const errText = "wallet rpc failed: Data.LastErr"
 
 func hexOf(seed string, n int) string {
 	b := make([]byte, n)
@@ -226,6 +227,10 @@ func strVal(f *field, c string) (string, bool) {
 	case "replaced":
 		s, _ := strVal(f, "badutf8")
 		return perByte(s), true
+	case "errtext": // the text of the error that class "some" of Data.LastErr stands for (see set)
+		if f.Name == "Data.LastErrString" {
+			return errText, true
+		}
 	}
 	if f.Kind == "state" && strings.HasPrefix(c, "State_") {
 		return c, true
@@ -380,7 +385,7 @@ func set(v reflect.Value, f *field, c string, self *swap.SwapId) bool {
 		v.SetBool(c == "true")
 	case "err":
 		if c == "some" {
-			v.Set(reflect.ValueOf(errors.New("wallet rpc failed: " + f.Name)))
+			v.Set(reflect.ValueOf(errors.New(errText)))
 		} else if c == "nil" {
 			v.Set(reflect.Zero(errType))
 		} else {
@@ -438,7 +443,7 @@ func classify(s *schema, f *field, got reflect.Value, self *swap.SwapId) string 
 	}
 	cands := append([]string{}, f.Classes...)
 	if f.Kind == "str" || f.Kind == "state" {
-		cands = append(cands, "replaced")
+		cands = append(cands, "replaced", "errtext")
 	}
 	tmp := reflect.New(got.Type()).Elem()
 	for _, c := range cands {
@@ -799,9 +804,17 @@ func (w *world) exec(x ids, last map[string]*written, o map[string]any, op, idn,
 				items = append(items, w.observe(x, last, g, ""))
 			}
 			ln["items"] = items
-		case "enc": // the document the real encoder writes, as the set of field names it contains
+		case "enc": // the document the real store writes, as the set of field names it contains
 			self := x.of("A")
-			b, err := json.Marshal(build(w.s, w.recs[ri-1], self))
+			var b []byte
+			err := w.st.UpdateData(build(w.s, w.recs[ri-1], self))
+			if err == nil {
+				err = w.db.Update(func(tx *bbolt.Tx) error {
+					bk := tx.Bucket([]byte("swaps"))
+					b = append(b, bk.Get(self[:])...)
+					return bk.Delete(self[:]) // the store model does not see this operation
+				})
+			}
 			if err != nil {
 				ln["res"] = "err:" + err.Error()
 			} else {
